@@ -28,10 +28,16 @@ def make_noargs():
   return nodes.Base(x=[nodes.node_b()], y=make_pair('na'))
 
 
+@auto_config.auto_config(experimental_always_inline=False)
+def make_top_partial(a):
+  # the as_buildable() form of this function is a fdl.Partial
+  return functools.partial(nodes.node_b, y=a)
+
+
 @auto_config.auto_config
 def outer2():
   return nodes.node(x=make_noargs(), y=[make_noargs(), make_pair('z'),
-                                        make_noargs()])
+                                        make_noargs(), make_top_partial('tp')])
 
 
 @auto_config.auto_config
